@@ -10,14 +10,14 @@ CHECKS = {
     "C13": (
         "translation_validation",
         "bounded-exhaustive enumeration of (grammar, lexer, builder settings) cases, each compiled by the real compile-time builders + rustc and compared with the run-time pipeline on every input up to a length",
-        "The ctrt crate's build script runs the real CTLexerBuilder / CTParserBuilder of the working tree over: the four yacc kinds x two recoverers on two base grammars, every single deviation (thorough: the full product) of serialisation format, Rust edition (2015/2018/2021) and visibility (private, pub, pub(crate), pub(super), pub(self), pub(in path)), a %parse-param case, a family of grammars (empty-production idioms, operator skeletons, the seed grammars) whose generated actions are observers (each action returns an S-expression built from $1..$n with Ok / Err lexemes, $span, $lexer.span_str and a literal $$), a lexer-centred case (flags in the %grmtools section, exclusive start state with push / pop, skip rules, non-ASCII token name) and a lexer-flag family (each of seven flags set to its non-default value once through the %grmtools section and once through the builder). rustc compiles all generated modules; for every module and every input of up to 3-5 characters over the case's alphabet the generated lexer and parser are compared with LRNonStreamingLexerDef::from_str + set_rule_ids and RTParserBuilder on the same sources: same lexemes, same R_* / N_* constants and token_epp, same value (generic tree, or observer S-expression against run-time recording closures), same errors with the same repair sets. A syntactic inventory of every generated parser fails closed on any shared mutable state other than the one OnceLock.",
+        "The ctrt crate's build script runs the real CTLexerBuilder / CTParserBuilder of the working tree over: the four yacc kinds x two recoverers on two base grammars, every single deviation (thorough: the full product) of serialisation format, Rust edition (2015/2018/2021) and visibility (private, pub, pub(crate), pub(super), pub(self), pub(in path)), a %parse-param case, a family of grammars (empty-production idioms, operator skeletons, the seed grammars) whose generated actions are observers (each action returns an S-expression built from $1..$n with Ok / Err lexemes, $span, $lexer.span_str and a literal $$), a lexer-centred case (flags in the %grmtools section, exclusive start state with push / pop, skip rules, non-ASCII token name) a lexer-flag family (each of seven flags set to its non-default value once through the %grmtools section and once through the builder) and the observer-action grammars again with every multi-production rule written in two pieces (A: p1; ...; A: p2 | p3; - productions of one rule not numbered consecutively). A case on which the real builders fail, or whose generated module rustc rejects, is compared with the run-time pipeline's verdict on the same sources (a verdict, not a build failure of the harness). rustc compiles all generated modules; for every module and every input of up to 3-5 characters over the case's alphabet the generated lexer and parser are compared with LRNonStreamingLexerDef::from_str + set_rule_ids and RTParserBuilder on the same sources: same lexemes, same R_* / N_* constants and token_epp, same value (generic tree, or observer S-expression against run-time recording closures), same errors with the same repair sets. A syntactic inventory of every generated parser fails closed on any shared mutable state other than the one OnceLock.",
         "rustc, quote, syn, prettyplease are trusted. Eco cannot be built at compile time. Later errors are compared only while both sides applied the same (arbitrary) first repair.",
         "DESIGN.md 3/C13",
     ),
     "C15": (
         "model_checking",
         "exhaustive enumeration of hash-map iteration orders (process-level hash seed owned through a getrandom shim, seeds enumerated until every permutation of every observable map occurred) x specifications; digests of all public queries and of generated code compared across processes; thread schedules of first use explored with shuttle in the ctrt crate",
-        "The harness re-executes itself under 48 (thorough 256) different, owned hash seeds. In each process every specification (a declaration-rich grammar in three yacc kinds incl. Eco with 3-4 implicit tokens, 3 %avoid_insert / precedence / %epp tokens, states with 3 outgoing edges and several conflicts; every grammar of a universe; the seed grammars) is turned into grammar, state graph and table on a fresh thread, and three grammar/lexer pairs are run through the real compile-time builders. The digest of the complete query dump (conflicts as a set) and of the generated files must be identical in all processes. For every randomly seeded map reachable through the public API (ast.implicit_tokens, avoid_insert, precs, epp, graph edges of 3-edge states) the iteration orders seen are recorded and the run is only reported exhaustive when every permutation of every such map occurred. Thread schedules: one real generated parser module is re-bound at build time from ::std::sync::OnceLock to a stand-in with the same API whose lock operations are shuttle scheduling points; shuttle's depth-first scheduler explores ALL interleavings of 3 threads each calling parse twice (first + cached use; 4666 schedules) and of 2 threads with an extra scheduling point between the fast-path look and the lock (659 schedules): every thread must get the sequential result and the parser data must be reconstituted exactly once per execution.",
+        "The harness re-executes itself under 48 (thorough 256) different, owned hash seeds. In each process every specification (a declaration-rich grammar in three yacc kinds incl. Eco with 3-4 implicit tokens, 3 %avoid_insert / precedence / %epp tokens, states with 3 outgoing edges and several conflicts; every grammar of a universe; the seed grammars; family F-gc: tables whose construction strands a state, so that the final renumbering walks hash maps of edges) is turned into grammar, state graph and table on a fresh thread, and three grammar/lexer pairs are run through the real compile-time builders. The digest of the complete query dump (conflicts as a set) and of the generated files must be identical in all processes. For every randomly seeded map reachable through the public API (ast.implicit_tokens, avoid_insert, precs, epp, graph edges of 3-edge states) the iteration orders seen are recorded and the run is only reported exhaustive when every permutation of every such map occurred. Thread schedules: one real generated parser module is re-bound at build time from ::std::sync::OnceLock to a stand-in with the same API whose lock operations are shuttle scheduling points; shuttle's depth-first scheduler explores ALL interleavings of 3 threads each calling parse twice (first + cached use; 4666 schedules) and of 2 threads with an extra scheduling point between the fast-path look and the lock (659 schedules): every thread must get the sequential result and the parser data must be reconstituted exactly once per execution.",
         "Orders of maps that are never exposed cannot be observed (same seeds run). std::sync::OnceLock is trusted.",
         "DESIGN.md 3/C15",
     ),
@@ -45,14 +45,14 @@ CHECKS = {
     "C10": (
         "model_checking",
         "bounded-exhaustive enumeration of abstract grammar specifications x concrete renderings; every accessor compared with the abstract specification, spans sliced out of the text, digest equal across all renderings",
-        "Abstract specification = grammar (all reachable grammars of a small universe + the seed grammars) x every set of <= 2 of twelve optional declarations (%token, %start, precedence lines, %prec, %epp with escaped quotes, %avoid_insert, %expect, %expect-rr, %expect-unused with an unused rule, %parse-param, %parse-generics, programs section) x five yacc kinds (action types and actions with nested braces and non-ASCII text where the kind has them; %implicit_tokens for Eco). Each is rendered in ~200 layouts: three quoting styles, nine gap styles (blank, newline, tab, // comment, /* */ comment, multi-line comment whose second line starts with a slash, /** doc **/, the empty comment /**/, a comment with stars and slashes inside), declaration order, %empty, %grmtools header (then parsed with from_str). For every rendering every accessor named in the property is compared with the abstract specification (rule order, productions in source order, symbols, token set and names, dense numbering and range of every index, start production, one unnamed end-of-input token, precedences by relative level, %prec, %epp, avoid-insert, expect counts, action text and types, parse-param, generics, programs, the documented Eco rewrite), every rule / token / production span must slice exactly the defining text, and all renderings of one specification must give the same digest.",
+        "Abstract specification = grammar (all reachable grammars of a small universe + the seed grammars) x every set of <= 2 of twelve optional declarations (%token, %start, precedence lines, %prec, %epp with escaped quotes, %avoid_insert, %expect, %expect-rr, %expect-unused with an unused rule, %parse-param, %parse-generics, programs section) x five yacc kinds (action types and actions with nested braces and non-ASCII text where the kind has them; %implicit_tokens for Eco). Each is rendered in ~200 layouts: three quoting styles, nine gap styles (blank, newline, tab, // comment, /* */ comment, multi-line comment whose second line starts with a slash, /** doc **/, the empty comment /**/, a comment with stars and slashes inside), declaration order, %empty, %grmtools header (then parsed with from_str), and - for a third of the layouts - every multi-production rule written in two pieces. For every rendering every accessor named in the property is compared with the abstract specification (rule order, productions in source order, symbols, token set and names, dense numbering and range of every index, start production, one unnamed end-of-input token, precedences by relative level, %prec, %epp, avoid-insert, expect counts, action text and types, parse-param, generics, programs, the documented Eco rewrite), every rule / token / production span must slice exactly the defining text, and all renderings of one specification must give the same digest.",
         "Action code and types are compared modulo comments and whitespace. The action span is only required to lie at its action (the repository's test pins its exact offsets).",
         "DESIGN.md 3/C10",
     ),
     "C11": (
         "model_checking",
         "bounded-exhaustive enumeration of abstract lex specifications x renderings; built definition compared field by field and by lexing behaviour with the abstract specification",
-        "(a) every rule of 1-2 (thorough 3) atoms from a 17-atom menu covering every escape class (ordinary, regex-meta, lex-special, class escapes, \\x41, \\b, multi-byte next to an escape, escaped blank) x every optional-escape rendering x both name quotings x with/without a start-state prefix x posix_escapes on/off x with/without a %grmtools section: the built rule must lex every string of <= 3 symbols over a 14-symbol alphabet exactly as the canonical regular expression of the abstract rule does; (b) two-rule specifications over every start-state prefix x target operation x named/skip, rendered with/without section, both quotings, trailing blanks, whole-line comments, via from_str and new_with_options: rules in source order with the written name, start states, target, regex text, distinct ids, declared start states; (c) all 32 settings of five flags given through the section and through new_with_options against a section that says the opposite, observed through behaviour; (d) the span of every rule name and start-state name must slice exactly that name out of the text the user wrote, and the span of each of eleven kinds of error must lie on the offending line, with and without a %grmtools section.",
+        "(a) every rule of 1-2 (thorough 3) atoms from a 19-atom menu covering every escape class (ordinary, regex-meta, lex-special, class escapes, \\x41, \\b, multi-byte next to an escape, escaped blank, characters that are white space to Unicode but not to lex: NBSP plain and escaped, U+3000) x every optional-escape rendering x both name quotings x with/without a start-state prefix x posix_escapes on/off x with/without a %grmtools section: the built rule must lex every string of <= 3 symbols over a 16-symbol alphabet exactly as the canonical regular expression of the abstract rule does; (b) two-rule specifications over every start-state prefix x target operation x named/skip, rendered with/without section, both quotings, trailing blanks, whole-line comments, via from_str and new_with_options: rules in source order with the written name, start states, target, regex text, distinct ids, declared start states; (c) all 32 settings of five flags given through the section and through new_with_options against a section that says the opposite, observed through behaviour; (d) the span of every rule name and start-state name must slice exactly that name out of the text the user wrote, and the span of each of eleven kinds of error must lie on the offending line, with and without a %grmtools section.",
         "The denotation of every atom is written down by hand in the regex crate's syntax. Regex semantics themselves are the regex crate's.",
         "DESIGN.md 3/C11",
     ),
